@@ -179,6 +179,167 @@ def form_compat(domain: str, op: str, s: int, t: int) -> bool:
     return True
 
 
+STATE_FILES = ["src/spox/_adapt.py", "src/spox/_graph.py"]
+# files a build passes through that legitimately have module-level tables: only what can silently carry state
+# from one call to the next is listed for them (mutable default arguments, caching decorators, `global`)
+STATE_FILES_LIGHT = ["src/spox/_build.py", "src/spox/_scope.py", "src/spox/_function.py", "src/spox/_inline.py",
+                     "src/spox/_node.py", "src/spox/_internal_op.py", "src/spox/_schemas.py", "src/spox/_public.py",
+                     "src/spox/_utils.py", "src/spox/_fields.py", "src/spox/_attributes.py"]
+_OK_DECORATORS = {"property", "staticmethod", "classmethod", "overload", "dataclass", "abstractmethod", "contextmanager"}
+
+
+def _immutable_literal(v) -> bool:
+    try:
+        val = ast.literal_eval(v)
+    except Exception:  # noqa: BLE001
+        return False
+    return isinstance(val, (int, float, str, bytes, bool, type(None), tuple, frozenset))
+
+
+def adapt_state() -> tuple[list[str], list[str]]:
+    """Inventory of what could carry adapted protos (or anything else) from one build to the next in the
+    files that adapt nodes: (state that outlives a build, attribute write sites)."""
+    state: list[str] = []
+    writes: list[str] = []
+    for rel in STATE_FILES + STATE_FILES_LIGHT:
+        short = rel.rsplit("/", 1)[-1]
+        light = rel in STATE_FILES_LIGHT
+        try:
+            mod = parse(rel)
+        except Exception as e:  # noqa: BLE001
+            state.append(f"{short}:unreadable:{type(e).__name__}")
+            continue
+        for st in ([] if light else mod.body):
+            tgts, val = [], None
+            if isinstance(st, ast.Assign):
+                tgts, val = st.targets, st.value
+            elif isinstance(st, ast.AnnAssign) and st.value is not None:
+                tgts, val = [st.target], st.value
+            elif isinstance(st, ast.AugAssign):
+                tgts, val = [st.target], st.value
+            for t in tgts:
+                name = ast.unparse(t)
+                if name == "__all__" or (isinstance(val, ast.Call) and ast.unparse(val.func).endswith("TypeVar")):
+                    continue
+                if name.isupper() and _immutable_literal(val):
+                    continue
+                state.append(f"{short}:module:{name}")
+            if isinstance(st, ast.Expr) and isinstance(st.value, ast.Call):
+                state.append(f"{short}:module-call:{ast.unparse(st.value.func)}")
+
+        def visit(node, fn):
+            for ch in ast.iter_child_nodes(node):
+                cur = fn
+                if isinstance(ch, (ast.FunctionDef, ast.AsyncFunctionDef)):
+                    cur = ch.name
+                    for d in ch.decorator_list:
+                        base = d.func if isinstance(d, ast.Call) else d
+                        nm = ast.unparse(base)
+                        if nm.split(".")[-1] not in _OK_DECORATORS | {"setter", "getter", "deleter"}:
+                            state.append(f"{short}:decorator:{ch.name}:{nm}")
+                    for dflt in list(ch.args.defaults) + [k for k in ch.args.kw_defaults if k is not None]:
+                        if not _immutable_literal(dflt) and not isinstance(dflt, (ast.Name, ast.Attribute)):
+                            state.append(f"{short}:mutable-default:{ch.name}")
+                elif isinstance(ch, ast.ClassDef):
+                    for st in ([] if light else ch.body):
+                        val = None
+                        if isinstance(st, ast.Assign):
+                            val, nm = st.value, ast.unparse(st.targets[0])
+                        elif isinstance(st, ast.AnnAssign) and st.value is not None:
+                            val, nm = st.value, ast.unparse(st.target)
+                        if val is None or _immutable_literal(val):
+                            continue
+                        if isinstance(val, ast.Call) and ast.unparse(val.func).split(".")[-1] in ("field", "OpType"):
+                            continue
+                        state.append(f"{short}:class-attribute:{ch.name}.{nm}")
+                elif isinstance(ch, ast.Global):
+                    state.append(f"{short}:global:{fn}:{','.join(ch.names)}")
+                if (fn is not None or cur is not None) and not light:
+                    tg = []
+                    if isinstance(ch, ast.Assign):
+                        tg = ch.targets
+                    elif isinstance(ch, (ast.AnnAssign, ast.AugAssign)):
+                        tg = [ch.target]
+                    for t in tg:
+                        for el in (t.elts if isinstance(t, (ast.Tuple, ast.List)) else [t]):
+                            if isinstance(el, ast.Attribute):
+                                writes.append(f"{short}:{cur}:{ast.unparse(el)}")
+                    if isinstance(ch, ast.Call) and ast.unparse(ch.func) in ("setattr", "object.__setattr__"):
+                        writes.append(f"{short}:{cur}:{ast.unparse(ch.func)}")
+                visit(ch, cur)
+
+        visit(mod, None)
+    return state, writes
+
+
+# functions the model covers: (file, qualified name). Their normalised-AST hashes are compared with the
+# pinned ones (translator/c09_pins.json, written by `python -m translator.opset_facts --pin` on a clean tree);
+# a difference is no verdict, it makes the harness search harder (more programs of the families that
+# exercise adaptation), whatever was changed.
+COVERED_FUNCTIONS = [
+    ("src/spox/_adapt.py", "adapt_node"), ("src/spox/_adapt.py", "adapt_inline"),
+    ("src/spox/_adapt.py", "adapt_best_effort"), ("src/spox/_adapt.py", "_initializers_to_constants"),
+    ("src/spox/_graph.py", "Graph.get_adapted_nodes"), ("src/spox/_graph.py", "Graph.get_opsets"),
+    ("src/spox/_graph.py", "Graph._get_opset_req"), ("src/spox/_graph.py", "Graph._get_build_result"),
+    ("src/spox/_graph.py", "Graph.with_opset"), ("src/spox/_graph.py", "Graph.to_onnx"),
+    ("src/spox/_graph.py", "Graph.to_onnx_model"),
+    ("src/spox/_schemas.py", "max_opset_policy"),
+    ("src/spox/_inline.py", "_Inline.opset_req"), ("src/spox/_inline.py", "_Inline.to_onnx"),
+    ("src/spox/_function.py", "Function.opset_req"), ("src/spox/_function.py", "Function.to_onnx_function"),
+    ("src/spox/_function.py", "to_function"), ("src/spox/_function.py", "_make_function_cls"),
+    ("src/spox/_public.py", "inline"), ("src/spox/_public.py", "build"),
+    ("src/spox/_internal_op.py", "_Introduce.opset_req"), ("src/spox/_internal_op.py", "_Introduce.to_onnx"),
+    ("src/spox/_node.py", "Node.opset_req"),
+    ("src/spox/_build.py", "Builder.build_main"), ("src/spox/_build.py", "Builder.compile_graph"),
+]
+PINS = __import__("pathlib").Path(__file__).with_name("c09_pins.json")
+
+
+def _strip_docstrings(node):
+    for n in ast.walk(node):
+        if isinstance(n, (ast.FunctionDef, ast.AsyncFunctionDef, ast.ClassDef, ast.Module)):
+            if n.body and isinstance(n.body[0], ast.Expr) and isinstance(getattr(n.body[0], "value", None), ast.Constant) \
+                    and isinstance(n.body[0].value.value, str):
+                n.body = n.body[1:] or [ast.Pass()]
+    return node
+
+
+def ast_hashes() -> dict:
+    import hashlib
+
+    out = {}
+    for rel, qual in COVERED_FUNCTIONS:
+        key = f"{rel.rsplit('/', 1)[-1]}:{qual}"
+        try:
+            body = parse(rel).body
+            found = None
+            parts = qual.split(".")
+            for st in body:
+                if len(parts) == 2 and isinstance(st, ast.ClassDef) and st.name == parts[0]:
+                    for m in st.body:
+                        if isinstance(m, (ast.FunctionDef, ast.AsyncFunctionDef)) and m.name == parts[1]:
+                            found = m
+                elif len(parts) == 1 and isinstance(st, (ast.FunctionDef, ast.AsyncFunctionDef)) and st.name == qual:
+                    found = st
+            if found is None:
+                out[key] = "absent"
+                continue
+            out[key] = hashlib.sha1(ast.dump(_strip_docstrings(found), include_attributes=False).encode()).hexdigest()[:12]
+        except Exception as e:  # noqa: BLE001
+            out[key] = f"unreadable:{type(e).__name__}"
+    return out
+
+
+def ast_changed(hashes: dict) -> list[str]:
+    import json
+
+    try:
+        pins = json.loads(PINS.read_text())
+    except Exception:  # noqa: BLE001
+        pins = {}
+    return sorted(k for k, v in hashes.items() if pins.get(k) != v)
+
+
 def collect() -> dict:
     """Every part degrades to an empty table (the obligations and the correspondences that need it then
     fail and are reported as broken) instead of raising when the source no longer has the expected shape."""
@@ -198,6 +359,16 @@ def collect() -> dict:
     except Exception as e:  # noqa: BLE001
         runs, ranges = {}, {d: (1, 0) for d in DOMAINS}
         problems.append(f"SCHEMAS: {e}")
+    try:
+        state, writes = adapt_state()
+    except Exception as e:  # noqa: BLE001
+        state, writes = [f"inventory failed: {type(e).__name__}"], []
+        problems.append(f"adaptation state inventory: {e}")
+    try:
+        hashes = ast_hashes()
+        changed = ast_changed(hashes)
+    except Exception:  # noqa: BLE001
+        hashes, changed = {}, ["ast hashes not computable"]
     names = sorted({(d, n) for (d, n) in runs} | {(r["domain"], r["op"]) for r in rows})
     op_id = {k: i for i, k in enumerate(names)}
     compat = []
@@ -209,7 +380,8 @@ def collect() -> dict:
                 if t > s and form_compat(d, n, s, t):
                     compat.append((d, n, s, t))
     return {"internal_min_opset": imo, "shipped": rows, "runs": runs, "ranges": ranges,
-            "names": names, "op_id": op_id, "compat": compat, "problems": problems}
+            "names": names, "op_id": op_id, "compat": compat, "problems": problems,
+            "adapt_state": state, "adapt_attr_writes": writes, "ast_hashes": hashes, "ast_changed": changed}
 
 
 def generate() -> dict:
@@ -256,11 +428,22 @@ def generate() -> dict:
     for i in range(0, len(ch), 6):
         L.append("  " + ", ".join(ch[i:i + 6]) + ("," if i + 6 < len(ch) else ""))
     L.append("]\n")
+    L.append("/-- state that outlives one build in src/spox/_adapt.py and _graph.py: module-level bindings and calls, `global`, "
+             "decorators other than property/staticmethod/classmethod/overload/dataclass, mutable defaults, mutable class attributes -/")
+    L.append("def adaptState : List String := " + lean_list([lean_str(x) for x in info["adapt_state"]]))
+    L.append("/-- attribute write sites (`obj.attr = …`, setattr) inside the functions of those files: file:function:target -/")
+    L.append("def adaptAttrWrites : List String := " + lean_list([lean_str(x) for x in info["adapt_attr_writes"]]))
+    L.append("")
     L.append("end Generated.OpsetFacts\n")
     write_if_changed(GEN / "OpsetFacts.lean", "\n".join(L))
     return info
 
 
 if __name__ == "__main__":
+    if "--pin" in sys.argv:
+        import json
+
+        PINS.write_text(json.dumps(ast_hashes(), indent=1, sort_keys=True) + "\n")
+        print("pinned", PINS)
     i = generate()
-    print(i["internal_min_opset"], len(i["shipped"]), len(i["runs"]), len(i["compat"]), i["ranges"])
+    print(i["internal_min_opset"], len(i["shipped"]), len(i["runs"]), len(i["compat"]), i["ranges"], "changed:", i["ast_changed"])
